@@ -139,7 +139,7 @@ func (vc *VC) execStmt(s *State, st ast.Stmt, label string) {
 
 func (vc *VC) declVar(s *State, o *types.Var, v *Term) {
 	if vc.boxed[o] {
-		ref := vc.allocRef(s, o.Name())
+		ref := vc.allocRef(s, o.Name(), typeID(o.Type()))
 		s.env[o] = ref
 		vc.storePtr(s, o.Type(), ref, v)
 		return
